@@ -41,6 +41,10 @@ def gen(ctx, W, n_per_kind, probes):
     # the distributed module handed to make_private already wrapped in a GradSampleModule
     cases.append({'seed': r.randint(0, 10**5), 'model': 'lin', 'B': 6, 'sigma': 0.7, 'C': 0.4, 'clipping': 'flat', 'mode': 'hooks', 'reduction': r.choice(['mean', 'sum']),
                   'scale': 1.0, 'shards': shards(r, W, 2, allow_empty=False), 'prewrapped': True})
+    # a second make_private on the same engine with the objects the first one returned: the replaced optimizer is without effect
+    for clip, mode in KINDS:
+        cases.append({'seed': r.randint(0, 10**5), 'model': 'lin', 'B': 6, 'sigma': 0.7, 'C': 0.4, 'clipping': clip, 'mode': mode, 'reduction': r.choice(['mean', 'sum']),
+                      'scale': 1.0, 'shards': shards(r, W, 2, allow_empty=False), 'remake': True})
     # a frozen first layer whose values differ between the ranks before wrapping: DPDDP must still broadcast rank 0's copy
     cases.append({'seed': r.randint(0, 10**5), 'model': 'lin', 'B': 6, 'sigma': 0.7, 'C': 0.4, 'clipping': 'flat', 'mode': 'hooks', 'reduction': r.choice(['mean', 'sum']),
                   'scale': 1.0, 'shards': shards(r, W, 2, allow_empty=False), 'freeze': True})
